@@ -526,6 +526,11 @@ class _CompressionMiddleware:
                 title="Unsupported Content-Encoding",
                 description=f"Content-Encoding {content_encoding!r} is not supported by this server",
             )
+        if req_enc is Encoding.IDENTITY:
+            # "identity" names the no-op coding: the body already is the plain
+            # request, so it takes the uncompressed path (and its wire cap)
+            # instead of a 415 for a "codec" that can never be enabled.
+            return
         if req_enc not in self._decode:
             raise falcon.HTTPUnsupportedMediaType(
                 title="Unsupported Content-Encoding",
